@@ -147,7 +147,8 @@ def op_janet(op, heap=0):
 
 def janet_source(prog):
     heap = prog.get("heap", 0)
-    lines = ["(defn vprog []", "  (def fibs @{0 (fiber/current)})"]
+    uses_fibs = any(op[0] == "x" for ops in prog["fibers"] for op in ops)
+    lines = ["(defn vprog []"] + (["  (def fibs @{0 (fiber/current)})"] if uses_fibs else [])
     if prog.get("gc"):
         lines.append("  (vopt %d)" % prog["gc"])
     for c, cap in enumerate(prog["limits"]):
@@ -168,7 +169,9 @@ def janet_source(prog):
         return " ".join(out)
     for f in range(1, len(prog["fibers"])):
         sv = sup_of(prog, f)
-        lines.append("  (put fibs %d (vreg (ev/go (fn [] %s nil)%s) %d))" % (f, body(f, prog["fibers"][f]), "" if sv is None else " nil c%d" % sv, f))
+        spawn = "(vreg (ev/go (fn [] %s nil)%s) %d)" % (body(f, prog["fibers"][f]), "" if sv is None else " nil c%d" % sv, f)
+        # the table of fibers exists for ev/cancel only; without it a spawned fiber is referenced by the event loop alone
+        lines.append("  (put fibs %d %s)" % (f, spawn) if uses_fibs else "  " + spawn)
     lines.append("  " + body(0, prog["fibers"][0]) + " nil)")
     return "\n".join(lines) + "\n"
 
@@ -356,6 +359,37 @@ def ringwrap_program(rng):
     return assign_values({"limits": limits, "fibers": fibers})
 
 
+def waiters_program(rng):
+    """Several fibers that wait on one or two small channels again and again (take loops, give loops on a full / capacity-0
+    channel, selects), served by the main fiber between sleeps: the pending-reader / pending-writer rings are walked round
+    (4 slots at first) with a few entries pending at any time.  Used with heap payloads and forced collections: the waiting
+    fibers are referenced by the channels' pending queues only."""
+    nch = rng.range(1, 2)
+    limits = [rng.range(0, 1) for _ in range(nch)]
+    nf = rng.range(3, 6)
+    fibers = [[]]
+    takers = givers = 0
+    for f in range(1, nf):
+        c = rng.below(nch)
+        n = rng.range(1, 4)
+        r = rng.below(10)
+        if r < 6:
+            fibers.append([("t", c)] * n)
+            takers += n
+        elif r < 8:
+            fibers.append([("g", c, 0)] * n)
+            givers += n
+        else:
+            fibers.append([("s", [("t", c)])] * n if rng.chance(1, 2) else [("s", [("g", c, 0)])] * n)
+    main = [("y",)]
+    for _ in range(rng.range(3, 12)):
+        r = rng.below(10)
+        c = rng.below(nch)
+        main.append(("g", c, 0) if r < 5 else ("t", c) if r < 7 else ("y",))
+    fibers[0] = main
+    return assign_values({"limits": limits, "fibers": fibers})
+
+
 def pump_sequences(cap, n):
     """every give/take sequence of length n that ONE fiber runs on one channel of capacity `cap` without ever waiting
     (the number of queued values stays within 0..cap), as strings over g/t"""
@@ -400,7 +434,7 @@ def parse_pending(s):
 
 def parse_state(s):
     """'|c0 i=.. r=.. w=.. X=0|q=..|t=..|s=..[|st=..|lc=n]' -> dict"""
-    st = {"chans": {}, "q": [], "t": [], "s": [], "st": None, "lc": None}
+    st = {"chans": {}, "q": [], "t": [], "s": [], "st": None, "lc": None, "z": []}
     for m in STATE_RE.finditer(s):
         st["chans"][int(m.group(1))] = {
             "items": [x for x in m.group(2).split(",") if x],
@@ -413,6 +447,8 @@ def parse_state(s):
             st["t"] = [x for x in part[2:].split(",") if x]
         elif part.startswith("s="):
             st["s"] = [int(x) for x in part[2:].split(",") if x]
+        elif part.startswith("z="):
+            st["z"] = [int(x) for x in part[2:].split(",") if x]
         elif part.startswith("st="):
             st["st"] = part[3:].split(",")
         elif part.startswith("lc="):
@@ -507,6 +543,11 @@ def oracle(prog, verdict, log):
     last_state = None
 
     def check_state(st, where):
+        for zf in st.get("z", []):
+            regs = [(c, q) for c, ch in st["chans"].items() for q in "rw" for (pf, ps, m) in ch[q] if pf == zf]
+            fails.append(("waiting-fiber-freed", "%s: fiber %d was freed by a collection although it had not finished%s - the channel's mark "
+                          "function did not keep its waiting fiber alive; a later give / take / close would wake a dangling fiber" % (
+                              where, zf, " (it is registered in the pending queues %r)" % regs if regs else "")))
         for c, ch in st["chans"].items():
             bad = [x for x in ch["items"] if x.startswith("?")]
             if bad:
@@ -793,7 +834,7 @@ def oracle(prog, verdict, log):
     for f in expect_close:
         fails.append(("close-did-not-wake", "fiber %d was waiting on channel %d when it was closed and was never resumed" % (f, expect_close[f][1])))
     for f, s0 in enumerate(final["st"]):
-        if s0 != "suspended":
+        if not s0.startswith("suspended"):
             for c0, ch0 in final["chans"].items():
                 mine = [x for x in ch0["r"] + ch0["w"] if x[0] == f and live(x, final)]
                 if mine:
@@ -820,7 +861,7 @@ def oracle(prog, verdict, log):
                 stats["supervisor_events"] += 1
         elif seen:
             fails.append(("supervisor-event-count", "supervised fiber %d has not finished (%s) but events %r exist" % (f, ended, seen)))
-    susp = [f for f, s in enumerate(final["st"]) if s == "suspended"]
+    susp = [f for f, s in enumerate(final["st"]) if s.startswith("suspended")]
     if verdict == "ok" and (susp or final["lc"] != 0):
         fails.append(("abnormal-run", "loop finished with suspended fibers %r / listener count %r" % (susp, final["lc"])))
     if verdict == "idle-forever":
